@@ -327,4 +327,193 @@ theorem pathComps_norm (s : Str) (hdd : dotdot ∉ pathComps s) : ∀ c ∈ path
   simp only [List.mem_filter, decide_eq_true_eq] at hc
   exact ⟨hc.2.1, hc.2.2, fun e => hdd (by rw [← e]; exact hc'), splitSlash_elems_noSlash s c hc.1⟩
 
+/-! ### the name space is a tree: every name has an inode, and its parent is a directory -/
+
+structure TreeWF (fs : FS) : Prop where
+  has_inode : ∀ p i, fs.lookup p = some i → (fs.inode i).isSome = true
+  parent_dir : ∀ p i, fs.lookup p = some i → p ≠ [] → fs.isDir p.dropLast = true
+
+theorem inode_isSome_modInode (fs : FS) (i j : Ino) (f : Inode → Inode) (h : (fs.inode j).isSome = true) :
+    ((fs.modInode i f).inode j).isSome = true := by
+  unfold FS.modInode
+  split
+  · simp only [FS.setInode]
+    split
+    · rfl
+    · exact h
+  · exact h
+
+theorem TreeWF.modInode {fs : FS} (h : TreeWF fs) (i : Ino) (f : Inode → Inode) (hf : ∀ n, (f n).kind = n.kind) :
+    TreeWF (fs.modInode i f) :=
+  ⟨fun p j hp => by rw [lookup_modInode] at hp; exact inode_isSome_modInode fs i j f (h.has_inode p j hp),
+   fun p j hp hne => by rw [lookup_modInode] at hp; exact dirKept_modInode _ fs i f hf (h.parent_dir p j hp hne)⟩
+
+theorem TreeWF.setInode {fs : FS} (h : TreeWF fs) (i : Ino) (n m : Inode) (hi : fs.inode i = some n) (hk : m.kind = n.kind) :
+    TreeWF (fs.setInode i m) :=
+  ⟨fun p j hp => by
+      have := h.has_inode p j hp
+      simp only [FS.setInode]
+      split
+      · rfl
+      · exact this,
+   fun p j hp hne => dirKept_setInode _ fs i n m hi hk (h.parent_dir p j hp hne)⟩
+
+theorem TreeWF.touchParent {fs : FS} (h : TreeWF fs) (q : Path) : TreeWF (fs.touchParent q) := by
+  unfold FS.touchParent
+  split
+  · exact h.modInode _ _ (fun _ => rfl)
+  · exact h
+
+theorem TreeWF.create {fs : FS} (h : TreeWF fs) (q : Path) (n : Inode) (hn : fs.lookup q = none) (hf : NextFresh fs)
+    (hpd : fs.isDir q.dropLast = true) : TreeWF (fs.create q n) := by
+  have hdk : ∀ d, fs.isDir d = true → (fs.create q n).isDir d = true := fun d hd => dirKept_create d fs q n hn hf hd
+  unfold FS.create at hdk ⊢
+  apply TreeWF.touchParent
+  constructor
+  · intro p j hp
+    have hp' : ({ fs with names := fs.names ++ [(q, fs.next)] } : FS).lookup p = some j := hp
+    rw [lookup_append_new fs q fs.next hn p] at hp'
+    split at hp'
+    · cases hp'; simp
+    · have := h.has_inode p j hp'
+      have hj : j ≠ fs.next := Nat.ne_of_lt (hf p j hp')
+      simp only [hj, if_false]
+      exact this
+  · intro p j hp hne
+    have hp' : ({ fs with names := fs.names ++ [(q, fs.next)] } : FS).lookup p = some j := hp
+    rw [lookup_append_new fs q fs.next hn p] at hp'
+    -- isDir of the parent in the un-touched structure
+    have key : ∀ d, fs.isDir d = true →
+        ({ names := fs.names ++ [(q, fs.next)], inode := fun j => if j = fs.next then some n else fs.inode j,
+           next := fs.next + 1 } : FS).isDir d = true := by
+      intro d hd
+      rw [isDir_iff] at hd ⊢
+      obtain ⟨m, hg, hk⟩ := hd
+      rw [get_def] at hg
+      cases hl : fs.lookup d with
+      | none => rw [hl] at hg; cases hg
+      | some k =>
+        rw [hl] at hg
+        simp only [Option.bind_some] at hg
+        have hne' : d ≠ q := by intro e; rw [e, hn] at hl; cases hl
+        refine ⟨m, ?_, hk⟩
+        rw [get_def]
+        change (({ fs with names := fs.names ++ [(q, fs.next)] } : FS).lookup d).bind _ = some m
+        rw [lookup_append_new fs q fs.next hn d, if_neg hne', hl]
+        simp only [Option.bind_some]
+        have hk' : k ≠ fs.next := Nat.ne_of_lt (hf d k hl)
+        simp only [hk', if_false]
+        exact hg
+    split at hp'
+    · rename_i e; rw [e]; exact key _ hpd
+    · exact key _ (h.parent_dir p j hp' hne)
+
+theorem TreeWF.addName {fs : FS} (h : TreeWF fs) (q qo : Path) (i : Ino) (hn : fs.lookup q = none)
+    (ho : fs.lookup qo = some i) (hpd : fs.isDir q.dropLast = true) : TreeWF (fs.addName q i) := by
+  unfold FS.addName
+  apply TreeWF.touchParent
+  have key : ∀ d, fs.isDir d = true → ({ fs with names := fs.names ++ [(q, i)] } : FS).isDir d = true := by
+    intro d hd
+    rw [isDir_iff] at hd ⊢
+    obtain ⟨m, hg, hk⟩ := hd
+    refine ⟨m, ?_, hk⟩
+    rw [get_def] at hg ⊢
+    have hne' : d ≠ q := by intro e; rw [e, hn] at hg; cases hg
+    rw [lookup_append_new fs q i hn d, if_neg hne']
+    exact hg
+  constructor
+  · intro p j hp
+    rw [lookup_append_new fs q i hn p] at hp
+    split at hp
+    · cases hp; exact h.has_inode qo _ ho
+    · exact h.has_inode p j hp
+  · intro p j hp hne
+    rw [lookup_append_new fs q i hn p] at hp
+    split at hp
+    · rename_i e; rw [e]; exact key _ hpd
+    · exact key _ (h.parent_dir p j hp hne)
+
+theorem under_dropLast_of_under {q p : Path} (h : under q p.dropLast = true) : under q p = true := by
+  simp only [under, List.isPrefixOf_iff_prefix] at h ⊢
+  exact h.trans (List.dropLast_prefix p)
+
+theorem TreeWF.filter {fs : FS} (h : TreeWF fs) (keep : Path → Bool)
+    (hk : ∀ p, keep p = true → p ≠ [] → keep p.dropLast = true) :
+    TreeWF ({ fs with names := fs.names.filter (fun e => keep e.1) } : FS) := by
+  constructor
+  · intro p j hp
+    rw [lookup_filterNames] at hp
+    split at hp
+    · exact h.has_inode p j hp
+    · cases hp
+  · intro p j hp hne
+    rw [lookup_filterNames] at hp
+    split at hp
+    · rename_i hkp
+      exact dirKept_filter _ fs keep (hk p hkp hne) (h.parent_dir p j hp hne)
+    · cases hp
+
+theorem TreeWF.removeSubtree {fs : FS} (h : TreeWF fs) (q : Path) : TreeWF (fs.removeSubtree q) := by
+  unfold FS.removeSubtree
+  refine (h.filter (fun p => !(under q p)) ?_).touchParent q
+  intro p hp _
+  simp only [Bool.not_eq_true'] at hp ⊢
+  cases hu : under q p.dropLast with
+  | false => rfl
+  | true => rw [under_dropLast_of_under hu] at hp; cases hp
+
+theorem TreeWF.removeBelow {fs : FS} (h : TreeWF fs) (q : Path) : TreeWF (fs.removeBelow q) := by
+  unfold FS.removeBelow
+  split
+  · refine (h.filter (fun p => !(under q p) || p == q) ?_).modInode _ _ (fun _ => rfl)
+    intro p hp hne
+    simp only [Bool.or_eq_true, Bool.not_eq_true', beq_iff_eq] at hp ⊢
+    rcases hp with hp | hp
+    · left
+      cases hu : under q p.dropLast with
+      | false => rfl
+      | true => rw [under_dropLast_of_under hu] at hp; cases hp
+    · -- p = q: its parent is not beneath q
+      subst hp
+      left
+      cases hu : under p p.dropLast with
+      | false => rfl
+      | true =>
+        exfalso
+        simp only [under, List.isPrefixOf_iff_prefix] at hu
+        have := hu.length_le
+        cases p with
+        | nil => exact hne rfl
+        | cons a as => simp at this; omega
+  · exact h
+
+/-- in a tree, nothing exists beneath a missing name -/
+theorem TreeWF.absent_below {fs : FS} (h : TreeWF fs) (pre : Path) (hp : fs.lookup pre = none) :
+    ∀ (n : Nat) (ext : Path), ext.length = n → fs.lookup (pre ++ ext) = none := by
+  intro n
+  induction n with
+  | zero =>
+    intro ext he
+    have : ext = [] := List.length_eq_zero_iff.mp he
+    subst this; simpa using hp
+  | succ n ih =>
+    intro ext he
+    rcases List.eq_nil_or_concat ext with h0 | ⟨ini, c, hc⟩
+    · subst h0; simp at he
+    · have hc' : ext = ini ++ [c] := by simpa using hc
+      subst hc'
+      have hlen : ini.length = n := by simp at he; exact he
+      cases hl : fs.lookup (pre ++ (ini ++ [c])) with
+      | none => rfl
+      | some i =>
+        exfalso
+        have hne : pre ++ (ini ++ [c]) ≠ [] := by simp
+        have hd := h.parent_dir _ i hl hne
+        have hdl : (pre ++ (ini ++ [c])).dropLast = pre ++ ini := by
+          rw [← List.append_assoc, List.dropLast_concat]
+        rw [hdl, isDir_iff] at hd
+        obtain ⟨m, hg, _⟩ := hd
+        rw [get_def, ih ini hlen] at hg
+        cases hg
+
 end GA
